@@ -105,7 +105,8 @@ fn remove_all_body_e(plan: [u8; 3], fixed_errno: i32) {
                     assert!(bytes_eq(&c.name, c.name_len, nameb, len));
                     if c.kind == C_OPENAT {
                         // scan open never follows a link and only opens directories
-                        let want = (libc::O_DIRECTORY | libc::O_NOFOLLOW | libc::O_CLOEXEC) as u64;
+                        // (seen at the openat_follow boundary; O_CLOEXEC|O_NOCTTY are added below it: O5.1b)
+                        let want = (libc::O_DIRECTORY | libc::O_NOFOLLOW) as u64;
                         assert!(c.flags & want == want);
                         assert!(c.flags & (libc::O_CREAT | libc::O_TRUNC | libc::O_TMPFILE) as u64 & !(libc::O_DIRECTORY as u64) == 0);
                         if c.ok {
